@@ -80,6 +80,7 @@ Definition is_nil {A} (l : list A) : bool := match l with [] => true | _ => fals
     not built-in; interfaces of objects are interfaces, members of unions are objects *)
 Definition schema_ok (S : schema) : bool :=
   nodupb (map tdef_name (s_types S)) &&
+  forallb (fun d => negb (is_nil (tdef_name d))) (s_types S) &&
   forallb (fun d => match builtin_of (tdef_name d) with Some _ => false | None => true end) (s_types S) &&
   forallb (fun d => match d with
                     | DScalar _ => false
